@@ -962,3 +962,292 @@ Example ex_term4_script :
     [["("; "set-logic"; "ALL"; ")"]; ["("; "declare-sort"; "S"; "0"; ")"];
      ["("; "declare-fun"; "a"; "("; ")"; "("; "Array"; "Int"; "("; "Array"; "Int"; "S"; ")"; ")"; ")"]].
 Proof. repeat split; vm_compute; reflexivity. Qed.
+
+(* ========================================================================= TypesOracle completeness *)
+(* Every custom sort that the script has to READ - inside the sort of a free symbol, of a function
+   signature, of a bound variable, of an array value - is among the declared ones, because the
+   (repaired) TypesOracle reports every sort that occurs (C12: Oracles_proofs.get_types_def) and is
+   closed under component sorts.  Hence those sorts read back over the declared signature, and the
+   `sorts read back' hypotheses of script_wellformed_partial are discharged. *)
+From PySMT.proofs Require Oracles_proofs.
+Notation sort_occurs := Oracles_proofs.sort_occurs.
+Notation free_in := Oracles_proofs.free_in.
+
+(* a sort the reader can give back at all: positive widths, no function sort inside *)
+Fixpoint sort_wf (t : ty) : Prop :=
+  match t with
+  | TBool | TInt | TReal | TStr => True
+  | TBV w => (0 < w)%Z
+  | TArr i e => sort_wf i /\ sort_wf e
+  | TUser _ args => (fix all (l : list ty) : Prop := match l with [] => True | x :: r => sort_wf x /\ all r end) args
+  | TFun _ _ => False
+  end.
+Lemma sort_wf_args n args : sort_wf (TUser n args) -> Forall sort_wf args.
+Proof. cbn [sort_wf]. induction args as [|a r IH]; intros H; constructor; [tauto | apply IH; tauto]. Qed.
+
+Lemma sym_not_underscore h n : sym_name h = Some n -> String.eqb h "_" = false.
+Proof. intros H. destruct (String.eqb_spec h "_"); [subst; discriminate H | reflexivity]. Qed.
+
+Lemma rb_declared S : forall t, sort_wf t ->
+  (forall n args, In (TUser n args) (subtypes t) ->
+                  sort_decl_ok (n, List.length args) /\ assoc n (sg_sorts S) = Some (List.length args)) ->
+  rb S t.
+Proof.
+  unfold rb. induction t as [ | | | | w | i e IHi IHe | ps r _ _ | n args IHargs] using ty_ind'; intros HW HD;
+    try reflexivity; try contradiction.
+  - (* BV *) cbn [sort_sexp sort_of_sexp]. cbn [String.eqb Ascii.eqb Bool.eqb]. cbn in HW.
+    rewrite (idx_numeral w) by lia. replace (0 <? w)%Z with true by (symmetry; now apply Z.ltb_lt). reflexivity.
+  - (* Array *) destruct HW as [Wi We]. cbn [sort_sexp sort_of_sexp]. cbn [String.eqb Ascii.eqb Bool.eqb].
+    change (sym_name "Array") with (Some "Array"). cbn [map all_some].
+    rewrite IHi, IHe; auto.
+    + intros n args H. apply HD. cbn [subtypes]. right. apply in_or_app. now right.
+    + intros n args H. apply HD. cbn [subtypes]. right. apply in_or_app. now left.
+  - (* user sort *)
+    destruct (HD n args (or_introl eq_refl)) as [[Hs Ht] Ha]. cbn [fst] in Hs, Ht.
+    assert (NB : String.eqb n "Bool" = false /\ String.eqb n "Int" = false /\ String.eqb n "Real" = false /\
+                 String.eqb n "String" = false /\ String.eqb n "Array" = false).
+    { unfold theory_sorts, mem_str in Ht. cbn [existsb] in Ht. repeat (apply orb_false_iff in Ht; destruct Ht as [? Ht]). tauto. }
+    destruct NB as (N1 & N2 & N3 & N4 & N5).
+    destruct args as [|a args].
+    + cbn [sort_sexp sort_of_sexp]. rewrite Hs, N1, N2, N3, N4, Ha. reflexivity.
+    + assert (E : all_some (map (sort_of_sexp S) (map sort_sexp (a :: args))) = Some (a :: args)).
+      { pose proof (sort_wf_args _ _ HW) as HWa.
+        assert (HDa : forall x, In x (a :: args) -> forall n' args', In (TUser n' args') (subtypes x) ->
+                   sort_decl_ok (n', List.length args') /\ assoc n' (sg_sorts S) = Some (List.length args')).
+        { intros x Hx n' args' H. apply HD. cbn [subtypes]. right. apply in_flat_map. eauto. }
+        clear - IHargs HWa HDa. induction IHargs as [|x r Hx _ IHr]; [reflexivity|]. cbn [map all_some].
+        inversion HWa; subst. rewrite Hx; [|assumption | intros; eapply HDa; [now left | eassumption]].
+        rewrite IHr; [reflexivity | assumption | intros; eapply HDa; [right; eassumption | eassumption]]. }
+      change (sort_sexp (TUser n (a :: args))) with (SList (Atom (quote n) :: map sort_sexp (a :: args))).
+      cbn [sort_of_sexp]. rewrite (sym_not_underscore _ _ Hs), Hs, E, N5, Ha, Nat.eqb_refl. reflexivity.
+Qed.
+
+(* ---- what has to be read: occurring sorts, and the sorts of array values ---- *)
+Definition leaf_op (o : op) : bool :=
+  match o with OSymbol _ _ | OBoolC _ | OIntC _ | ORealC _ _ | OBVC _ _ | OStrC _ => true | _ => false end.
+Inductive need (s : ty) : term -> Prop :=
+| NeedOcc t : sort_occurs s t -> need s t
+| NeedArr it d rest : s = array_value_type it d -> need s (T (OArrayValue it) (d :: rest))
+| NeedArg o args a : In a args -> need s a -> leaf_op o = false -> need s (T o args).
+
+Lemma occurs_arg o args a s : In a args -> leaf_op o = false -> sort_occurs s a -> sort_occurs s (T o args).
+Proof. intros Ha Hl H. apply (Oracles_proofs.SortArg s o args a Ha H). destruct o; try discriminate Hl; exact Logic.I. Qed.
+
+Definition reported (x : ty) (t : term) : Prop := exists u, sort_occurs u t /\ In x (subtypes u).
+Lemma reported_arg o args a x : In a args -> leaf_op o = false -> reported x a -> reported x (T o args).
+Proof. intros Ha Hl (u & Hu & Hx). exists u. split; [now apply (occurs_arg o args a) | assumption]. Qed.
+
+Definition scalar (t : ty) : Prop := match t with TBool | TInt | TReal | TStr | TBV _ => True | _ => False end.
+Lemma scalar_no_custom t x : scalar t -> In x (subtypes t) -> is_custom x = true -> False.
+Proof. destruct t; try contradiction; cbn; intros _ [<-|[]]; discriminate. Qed.
+
+(* where the sort computed by the type checker comes from *)
+Lemma tc_rule_result o tys ty : tc_rule o tys = Some ty ->
+  scalar ty \/ In ty tys \/ (exists i, In (TArr i ty) tys) \/
+  (exists n, o = OSymbol n ty) \/ (exists n ps, o = OFunction n (TFun ps ty)) \/
+  (exists it d r, o = OArrayValue it /\ tys = d :: r /\ ty = TArr it d).
+Proof.
+  intros H. destruct o; cbn [tc_rule] in H;
+    try (apply ttt_inv in H; destruct H as [_ ->]; left; exact Logic.I);
+    try (apply realint_inv in H; destruct H as [[-> | ->] _]; left; exact Logic.I).
+  - destruct tys as [|a [|b r]]; try discriminate H. destruct (ty_eqb a TBool); [|discriminate H]. injection H as <-. left; exact Logic.I.
+  - destruct tys as [|a [|b r]]; try discriminate H. destruct (ty_eqb a TBool); [|discriminate H]. injection H as <-. left; exact Logic.I.
+  - destruct tys; [|discriminate H]. injection H as <-. right; right; right; left. eauto.
+  - destruct t; try discriminate H. destruct (tys_eqb tys ps); [|discriminate H]. injection H as <-. right; right; right; right; left. eauto.
+  - destruct tys; [injection H as <-; left; exact Logic.I | discriminate H].
+  - destruct tys; [injection H as <-; left; exact Logic.I | discriminate H].
+  - destruct tys; [injection H as <-; left; exact Logic.I | discriminate H].
+  - destruct tys; [injection H as <-; left; exact Logic.I | discriminate H].
+  - (* <= *) destruct tys as [|a r]; [discriminate H|]. destruct a; apply ttt_inv in H; destruct H as [_ ->]; left; exact Logic.I.
+  - destruct tys as [|a r]; [discriminate H|]. destruct a; apply ttt_inv in H; destruct H as [_ ->]; left; exact Logic.I.
+  - (* = *) destruct tys as [|a r]; [discriminate H|]. destruct a; try discriminate H;
+      try (apply ttt_inv in H; destruct H as [_ ->]; left; exact Logic.I).
+    apply SimplifierSemBase_proofs.bv_to_bool_out in H. subst. left; exact Logic.I.
+  - (* ite *) destruct tys as [|c [|a [|b r]]]; try discriminate H. destruct (ty_eqb c TBool && ty_eqb a b); [|discriminate H].
+    injection H as <-. right; left. right; now left.
+  - destruct tys; [injection H as <-; left; exact Logic.I | discriminate H].
+  - (* bv *) destruct k; cbn in H;
+      try (destruct (forallb _ tys); [injection H as <-; left; exact Logic.I | discriminate H]).
+    + destruct tys as [|[] [|[] r]]; try discriminate H. destruct (Z.eqb (w0 + w1) w); [|discriminate H]. injection H as <-. left; exact Logic.I.
+    + destruct tys as [|a [|b [|c r]]]; try discriminate H. destruct (ty_eqb a b && is_bv a); [|discriminate H]. injection H as <-. left; exact Logic.I.
+  - apply SimplifierSemBase_proofs.bv_to_bool_out in H. subst. left; exact Logic.I.
+  - destruct tys as [|[] r]; try discriminate H. repeat (destruct (_ || _)%bool in H; try discriminate H).
+    destruct (_ <? _)%Z in H; [discriminate H|]. destruct (negb _) in H; [discriminate H|]. injection H as <-. left; exact Logic.I.
+  - destruct ((w <? k)%Z || (w <? 0)%Z || (k <? 0)%Z); [discriminate H|]. destruct tys as [|[] r]; try discriminate H.
+    destruct (Z.eqb w w0); [|discriminate H]. injection H as <-. left; exact Logic.I.
+  - destruct ((w <? k)%Z || (w <? 0)%Z || (k <? 0)%Z); [discriminate H|]. destruct tys as [|[] r]; try discriminate H.
+    destruct (Z.eqb w w0); [|discriminate H]. injection H as <-. left; exact Logic.I.
+  - destruct tys as [|[] r]; try discriminate H. destruct (_ || _)%bool in H; [discriminate H|]. injection H as <-. left; exact Logic.I.
+  - destruct tys as [|[] r]; try discriminate H. destruct (_ || _)%bool in H; [discriminate H|]. injection H as <-. left; exact Logic.I.
+  - (* strings *) destruct k; cbn in H;
+      try (apply ttt_inv in H; destruct H as [_ ->]; left; exact Logic.I);
+      try (destruct tys as [|[] [|[] [|[] [|]]]]; try discriminate H; injection H as <-; left; exact Logic.I).
+  - (* select *) destruct tys as [|[] [|x r]]; try discriminate H. destruct (ty_eqb i x); [|discriminate H]. injection H as <-.
+    right; right; left. exists i. now left.
+  - (* store *) destruct tys as [|[] [|x [|v r]]]; try discriminate H. destruct (ty_eqb i x && ty_eqb e v); [|discriminate H].
+    injection H as <-. right; left. now left.
+  - (* array value *) destruct tys as [|d r]; [discriminate H|]. destruct (array_value_ok it d r true); [|discriminate H].
+    injection H as <-. right; right; right; right; right. eauto 6.
+  - (* pow *) destruct tys as [|a [|b r]]; try discriminate H. destruct (negb (ty_eqb a b)); [discriminate H|].
+    destruct a; try discriminate H; injection H as <-; left; exact Logic.I.
+  - destruct tys as [|a r]; [discriminate H|]. destruct (is_bv a); [|discriminate H]. injection H as <-. left; exact Logic.I.
+Qed.
+
+Lemma tcs_In : forall args tys ty, tcs args = Some tys -> In ty tys -> exists a, In a args /\ tc a = Some ty.
+Proof.
+  induction args as [|a r IH]; intros tys ty E H; cbn in E.
+  - injection E as <-. contradiction.
+  - destruct (tc a) as [ta|] eqn:Ea; [|discriminate]. destruct (tcs r) as [tr|] eqn:Er; [|discriminate]. injection E as <-.
+    destruct H as [<-|H]; [exists a; split; [now left | assumption]|].
+    destruct (IH tr ty eq_refl H) as (b & Hb & Tb). exists b. split; [now right | assumption].
+Qed.
+Lemma leaf_no_args o tys ty : leaf_op o = true -> tc_rule o tys = Some ty -> tys = [].
+Proof. destruct o; try discriminate; cbn; intros _ H; destruct tys; auto; discriminate H. Qed.
+
+Lemma tc_reported : forall d ty, tc d = Some ty -> forall x, In x (subtypes ty) -> is_custom x = true -> reported x d.
+Proof.
+  induction d as [o args IH] using term_ind'. intros ty Htc x Hx Hc.
+  rewrite tc_tcs in Htc. destruct (tcs args) as [tys|] eqn:E; [|discriminate].
+  assert (LIFT : forall a, In a args -> reported x a -> reported x (T o args)).
+  { intros a Ha Hr. destruct (leaf_op o) eqn:El; [|now apply (reported_arg o args a)].
+    rewrite (leaf_no_args o tys ty El Htc) in E. destruct args; [contradiction | cbn in E; destruct (tc t); [destruct (tcs args)|]; discriminate]. }
+  rewrite Forall_forall in IH.
+  destruct (tc_rule_result o tys ty Htc) as [Hs|[Hin|[(i & Hin)|[(n & ->)|[(n & ps & ->)|(it & d & r & -> & -> & ->)]]]]].
+  - exfalso. exact (scalar_no_custom ty x Hs Hx Hc).
+  - destruct (tcs_In args tys ty E Hin) as (a & Ha & Ta). apply (LIFT a Ha). exact (IH a Ha ty Ta x Hx Hc).
+  - destruct (tcs_In args tys _ E Hin) as (a & Ha & Ta). apply (LIFT a Ha). apply (IH a Ha _ Ta x); [|assumption].
+    cbn [subtypes]. right. apply in_or_app. now right.
+  - exists ty. split; [|assumption]. apply Oracles_proofs.SortHere. cbn. now left.
+  - exists ty. split; [|assumption]. apply Oracles_proofs.SortHere. cbn. now left.
+  - cbn [subtypes] in Hx. destruct Hx as [<-|Hx]; [discriminate Hc|]. apply in_app_or in Hx. destruct Hx as [Hx|Hx].
+    + exists it. split; [|assumption]. apply Oracles_proofs.SortHere. cbn. now left.
+    + destruct args as [|a0 rest]; [discriminate E|]. cbn [tcs] in E. destruct (tc a0) as [t0|] eqn:E0; [|discriminate].
+      destruct (tcs rest); [|discriminate]. injection E as <- <-.
+      apply (LIFT a0 (or_introl eq_refl)). exact (IH a0 (or_introl eq_refl) t0 E0 x Hx Hc).
+Qed.
+
+Lemma need_reported s t : need s t -> forall x, In x (subtypes s) -> is_custom x = true -> reported x t.
+Proof.
+  induction 1 as [t Ho | it d rest -> | o args a Ha _ IH Hl]; intros x Hx Hc.
+  - exists s. split; assumption.
+  - unfold array_value_type in Hx. destruct (tc d) as [e|] eqn:Ed; cbn [subtypes] in Hx;
+      (destruct Hx as [<-|Hx]; [discriminate Hc|]); apply in_app_or in Hx; destruct Hx as [Hx|Hx].
+    + exists it. split; [|assumption]. apply Oracles_proofs.SortHere. cbn. now left.
+    + apply (reported_arg (OArrayValue it) (d :: rest) d x (or_introl eq_refl) eq_refl). exact (tc_reported d e Ed x Hx Hc).
+    + exists it. split; [|assumption]. apply Oracles_proofs.SortHere. cbn. now left.
+    + cbn in Hx. destruct Hx as [<-|[]]. discriminate Hc.
+  - apply (reported_arg o args a x Ha Hl). now apply IH.
+Qed.
+
+(* the sorts in the declaration of a free symbol occur in the formula *)
+Lemma free_sorts v t : free_in v t -> (exists ty, tc t = Some ty) ->
+  match snd v with
+  | TFun ps r => Forall (fun s => sort_occurs s t) (r :: ps) \/ sort_occurs (TFun ps r) t
+  | ty => sort_occurs ty t
+  end.
+Proof.
+  induction 1 as [n ty args -> | n ty args -> | o args a Ha Hf IH Ho]; intros (ty0 & Ty0); cbn [snd].
+  - assert (O : sort_occurs ty (T (OSymbol n ty) args)) by (apply Oracles_proofs.SortHere; cbn; now left).
+    destruct ty; auto.
+  - rewrite tc_tcs in Ty0. destruct (tcs args); [|discriminate]. cbn [tc_rule] in Ty0. destruct ty; try discriminate Ty0.
+    left. rewrite Forall_forall. intros s Hs. apply Oracles_proofs.SortHere. exact Hs.
+  - assert (Ta : exists ta, tc a = Some ta).
+    { rewrite tc_tcs in Ty0. destruct (tcs args) as [tys|] eqn:E; [|discriminate].
+      pose proof (tcs_args_typed args tys E) as F. rewrite Forall_forall in F. now apply F. }
+    specialize (IH Ta).
+    assert (Hl : leaf_op o = false) by (destruct o; try reflexivity; contradiction).
+    destruct (snd v); try (now apply (occurs_arg o args a)).
+    destruct IH as [IH|IH]; [left | right; now apply (occurs_arg o args a)].
+    rewrite Forall_forall in *. intros s Hs. apply (occurs_arg o args a); auto.
+Qed.
+
+Lemma assoc_nodup {A} n (v : A) (l : list (string * A)) : NoDup (map fst l) -> In (n, v) l -> assoc n l = Some v.
+Proof.
+  induction l as [|[k w] l IH]; cbn; intros HN H; [contradiction|]. inversion HN as [|? ? Hni HN']; subst.
+  destruct H as [[= -> ->]|H]; [now rewrite String.eqb_refl|].
+  destruct (String.eqb_spec n k) as [->|]; [|now apply IH].
+  exfalso. apply Hni. change k with (fst (k, v)). now apply in_map.
+Qed.
+Lemma decl_eqb_eq a b : decl_eqb a b = true <-> a = b.
+Proof.
+  destruct a as [n1 k1], b as [n2 k2]. unfold decl_eqb. cbn. rewrite andb_true_iff, String.eqb_eq, Nat.eqb_eq.
+  split; [intros [-> ->]; reflexivity | intros [= -> ->]; auto].
+Qed.
+
+Section Complete.
+  Variable t : term.
+  Hypothesis HSd : Forall sort_decl_ok (sort_decls t).
+  Hypothesis HSn : NoDup (map fst (sort_decls t)).
+
+  (* TypesOracle completeness, in the form the script needs: a reported custom sort is declared *)
+  Lemma reported_declared n args : reported (TUser n args) t ->
+    sort_decl_ok (n, List.length args) /\ assoc n (sg_sorts (script_sig t)) = Some (List.length args).
+  Proof.
+    intros Hr. assert (Hin : In (n, List.length args) (sort_decls t)).
+    { unfold sort_decls. apply (Sets_proofs.dedupe_In decl_eqb decl_eqb_eq).
+      apply in_map_iff. exists (TUser n args). split; [reflexivity|]. unfold custom_types. apply filter_In. split; [|reflexivity].
+      now apply Oracles_proofs.get_types_def. }
+    split; [rewrite Forall_forall in HSd; now apply HSd|].
+    cbn [script_sig sg_sorts]. apply assoc_nodup; [rewrite map_rev; now apply NoDup_rev | now apply -> in_rev].
+  Qed.
+
+  (* ... hence every well-formed sort that has to be read reads back over the declared signature *)
+  Theorem needed_sorts_read_back s : need s t -> sort_wf s -> rb (script_sig t) s.
+  Proof.
+    intros Hn Hw. apply rb_declared; [assumption|]. intros n args Hx. apply reported_declared.
+    exact (need_reported s t Hn _ Hx eq_refl).
+  Qed.
+End Complete.
+
+(* the readback facts wfp / srt / the declarations ask for *)
+Definition rbs (t : term) : Prop := forall s, need s t -> rb (script_sig t) s.
+
+(* FULL STATEMENT as before.  Side conditions now: names (logic, sorts, symbols) read back and are
+   pairwise distinct; function symbols have parameters; every sort to be read is well-formed
+   (positive widths, no function sort inside); the formula is Bool-typed and satisfies the per-node
+   conditions of wfp and srt - stated as `wfp / srt hold as soon as the needed sorts read back',
+   which this theorem PROVES they do (TypesOracle completeness). *)
+Theorem script_wellformed : forall dag logic t,
+  sym_name logic <> None ->
+  Forall sort_decl_ok (sort_decls t) -> NoDup (map fst (sort_decls t)) ->
+  Forall (fun v : var => good_name (fst v) = true /\ match snd v with TFun ps _ => ps <> [] | _ => True end) (fv t) ->
+  NoDup (map fst (fv t)) ->
+  (forall s, need s t -> sort_wf s) ->
+  (rbs t -> wfp (script_sig t) [] t) -> (rbs t -> srt (script_sig t) t) -> tc t = Some TBool ->
+  std_script_ok (script_of dag logic t) = true.
+Proof.
+  intros dag logic t HL HSd HSn HF HFn HWf HW HS HT.
+  assert (R : rbs t) by (intros s Hs; apply needed_sorts_read_back; auto).
+  apply script_wellformed_partial; auto.
+  rewrite Forall_forall in *. intros [n ty] Hv. destruct (HF _ Hv) as [Hg Hshape]. split; [exact Hg|]. cbn [fst snd] in *.
+  pose proof (free_sorts (n, ty) t (proj1 (Oracles_proofs.fv_def t (n, ty)) Hv) (ex_intro _ TBool HT)) as FS. cbn [snd] in FS.
+  destruct ty; try (apply R; now apply NeedOcc).
+  destruct FS as [FS|FS]; [|exfalso; exact (HWf _ (NeedOcc _ _ FS))].
+  inversion FS as [|? ? Hr Hps]; subst. split; [assumption|]. split.
+  - rewrite Forall_forall in *. intros p Hp. apply R. apply NeedOcc. now apply Hps.
+  - apply R. now apply NeedOcc.
+Qed.
+
+Example ex_term4_script_hyps :
+  Forall (fun v : var => good_name (fst v) = true /\ match snd v with TFun ps _ => ps <> [] | _ => True end) (fv ex_term4) /\
+  (rbs ex_term4 -> wfp (script_sig ex_term4) [] ex_term4) /\ (rbs ex_term4 -> srt (script_sig ex_term4) ex_term4).
+Proof.
+  destruct ex_term4_hyps as (_ & _ & _ & _ & _ & HW & HS & _).
+  split; [repeat constructor|]. split; intros _; assumption.
+Qed.
+
+(* ========================================================================= one statement *)
+(* Under ONE set of hypotheses, both printers: the text is well-sorted at the sort of the formula
+   and has, under every well-formed interpretation, the value of the formula. *)
+Theorem print_wellsorted_and_sound : forall Sg I t ty,
+  wfp Sg [] t -> srt Sg t -> tc t = Some ty -> wf_interp I ->
+  (std_sort Sg (print_tree t) = Some ty /\ std_eval Sg I (print_tree t) = Some (eval I t)) /\
+  (std_sort Sg (print_dag t) = Some ty /\ std_eval Sg I (print_dag t) = Some (eval I t)).
+Proof.
+  intros Sg I t ty HW HS HT HI. assert (BG : bound_good []) by (intros n ty' H; discriminate H).
+  split; split.
+  - exact (print_tree_sorted_gen Sg t [] ty HW HS HT BG).
+  - now apply print_tree_sound_partial.
+  - apply (print_dag_sorted_gen Sg (tsize t) t (Nat.le_refl _) [] [] ty HW HS HT BG). reflexivity.
+  - now apply print_dag_sound_partial.
+Qed.
